@@ -437,6 +437,10 @@ func (e *Engine) execInstr(f *frame, b *ssa.BasicBlock, in ssa.Instruction, st *
 			e.ownStore(st, p.Terms[0], Val{Typ: x.Val.Type(), Terms: v.Terms}, pos, "store")
 		}
 		e.store(st, p, v)
+		if ld, ok := x.Val.(*ssa.UnOp); ok && ld.Op == token.MUL && p.Ptr != nil && p.Ptr.whole(e) && typeStr(p.Ptr.Root) == "math/big.Int" {
+			// *d = *q for big.Int: the destination now denotes q's value
+			e.bigSet(st, p.Terms[0], e.bigVal(st, f.get(ld.X).Terms[0]))
+		}
 	case *ssa.TypeAssert:
 		f.vals[x] = e.typeAssert(f, st, x, pos)
 	case *ssa.Call:
